@@ -157,7 +157,7 @@ type Executor struct {
 	DBHash     string
 	Binary     string // "" = in-process mcp.Server; else path of a real hookaido binary (`hookaido mcp serve`, layer L2)
 	Cwd        string // working directory of the shard (relative paths in arguments land here)
-	stopAdmin  func()
+	admin      *FakeAdmin
 
 	cur struct {
 		mu     sync.Mutex
@@ -175,10 +175,10 @@ func NewExecutor(scratch string) (*Executor, error) {
 	if err := os.MkdirAll(scratch, 0o755); err != nil {
 		return nil, err
 	}
-	x.AdminUp, x.AdminDown, x.stopAdmin, err = StartFakeAdmin()
-	if err != nil {
+	if x.admin, err = StartFakeAdmin(); err != nil {
 		return nil, err
 	}
+	x.AdminUp, x.AdminDown = x.admin.Up, x.admin.Down
 	x.DBTemplate = filepath.Join(scratch, "template.db")
 	x.DBHash, err = MakeTemplateDB(x.DBTemplate)
 	if err != nil {
@@ -208,8 +208,8 @@ func NewExecutor(scratch string) (*Executor, error) {
 
 func (x *Executor) Close() {
 	verifhook.SetGate(nil)
-	if x.stopAdmin != nil {
-		x.stopAdmin()
+	if x.admin != nil {
+		x.admin.Close()
 	}
 }
 
@@ -299,7 +299,11 @@ func (x *Executor) Run(r Row) (*Event, error) {
 		return nil, err
 	}
 	defer os.RemoveAll(root)
-	env, err := NewEnv(root, x.AdminUp, x.AdminDown, health, x.DBTemplate)
+	backend := r.Lab.Backend
+	if backend == "" {
+		backend = "sqlite"
+	}
+	env, err := NewEnv(root, x.AdminUp, x.AdminDown, health, backend, x.DBTemplate)
 	if err != nil {
 		return nil, err
 	}
@@ -319,6 +323,8 @@ func (x *Executor) Run(r Row) (*Event, error) {
 		ev.Real.Wire = "object"
 	}
 	ev.Row.Lab.Wire = ev.Real.Wire
+	ev.Real.Backend = backend
+	ev.Row.Lab.Backend = backend
 	if c, ok := args["content"].(string); ok {
 		ev.ContentSha = Sha([]byte(c))
 		ev.ContentOK = Compiles([]byte(c))
@@ -436,6 +442,7 @@ func (x *Executor) Run(r Row) (*Event, error) {
 		return fail(err)
 	}
 	auditBefore := audit.String()
+	x.admin.Reset()
 	t0 := time.Now()
 	params := map[string]any{"name": r.Tool, "arguments": args}
 	switch ev.Real.Wire {
@@ -446,6 +453,7 @@ func (x *Executor) Run(r Row) (*Event, error) {
 	}
 	rep, err := c.call("tools/call", params)
 	t1 := time.Now()
+	ev.AdminPosts, ev.AdminGets = x.admin.Counts()
 	if err != nil {
 		return fail(err)
 	}
